@@ -248,7 +248,8 @@ def run_probe(path, outdir, timeout=600):
     lines = []
     lines.append(vxgen.Line("#![allow(unused)]", "gen", "", 0))
     lines.append(vxgen.Line("use vstd::prelude::*;", "gen", "", 0))
-    lines.append(vxgen.Line("use std::collections::HashMap;", "gen", "", 0))
+    for u in (meta.get("uses") or ["std::collections::HashMap"]):
+        lines.append(vxgen.Line("use %s;" % u, "gen", "", 0))
     lines.append(vxgen.Line("verus! {", "gen", "", 0))
     pitems = []
     for p in meta["prelude"]:
